@@ -156,7 +156,17 @@ pub fn judge(out: &mut Out, toks: &[Tok], src: &str, want: Want, prop_rule_prefi
                         None => out.count("ILL, arity-correct tree, no succeeding context (unconfirmed, not reported)"),
                     }
                 } else {
-                    out.count("ILL accepted by the parser but with a wrong-arity node (fails at evaluation)");
+                    // a node with the wrong number of operands must make every evaluation fail (all nodes are
+                    // evaluated eagerly): checked, not assumed
+                    out.count("ILL accepted by the parser but with a wrong-arity node (must fail at evaluation)");
+                    if let Some(how) = confirm_evaluates(t, &idents(toks)) {
+                        out.violation(
+                            "ill-formed-evaluates",
+                            src.to_string(),
+                            format!("never evaluates successfully (ill-formed: {}; the tree has a wrong-arity node)", reason),
+                            format!("tree {} — {}", node_sx(t), how),
+                        );
+                    }
                 }
             }
         },
